@@ -52,6 +52,11 @@ CHECKS.update({
          TB + "The lenient continuation after a downgraded error is declared undefined by the README and is not modelled.",
          "Rocq/Coq proof (free-monad discipline) + translator obligation + mode-schedule correspondence", "DESIGN.md §2 C17"),
 })
+CHECKS["C07"] = ("Coq theorems over all coefficients / limits / values (exact integer arithmetic): rounding is nearest with ties to even, limit semantics, LINEAR formula and inverse for slope magnitude > 1 "
+    "(with the unit-slope tie refutation), validity <-> limits, valid physical values convert, continuous increasing SCALE-LINEAR always encodes, TAB-INTP valid values always convert (discrete intermediate value theorem). "
+    "Model tied to odxtools.compumethods by correspondence over 7 categories x every value of -3..258 plus an exact-fraction oracle.",
+    TB + "Integer internal/physical types and integer coefficients only; float-typed methods and behaviour outside the binary64 exactness envelope are modelled-not-verified; COMPUCODE not modelled.",
+    "Rocq/Coq proof (nearest-rounding lemmas, induction over segments) + correspondence with exact rational oracle", "DESIGN.md §3 C07")
 NA_REASON = "check not built yet in this round (work in progress; DESIGN.md §6 gives the order of work)"
 def main():
     checks = []
